@@ -36,7 +36,7 @@ def streams(ctx, res):
 
 def translators_c10(repo):
     """gen_gauss_ast (cmp + sampling path, shared with C11) and gen_lut_ast (buildLookupTables -> Generated/LutAst.lean, re-translated
-    from clang's AST on every run; tied to the hand model buildLUT by Proofs/LutAstEq.lean, statements in Properties/C10LutAst.lean)"""
+    from clang's AST on every run; proved equal to the hand model buildLUT, whole function, both depths, by Proofs/LutAstEq.lean + LutAstEq2.lean + LutAstEq3.lean; statements in Properties/C10LutAst.lean)"""
     import json as _json
     out = dict(gc.translators_gauss(repo))
     r = cl.run(["python3", os.path.join(cl.HERE, "gen_lut_ast.py"), "--repo", repo])
